@@ -1379,6 +1379,108 @@ impl<T> Trace<T> {
     //@| outline `routes.extend(Trace::get_routes_from_traces(&trace.children));` => `ext_routes(&mut routes, Trace::get_routes_from_traces(&trace.children));`
 }
 
+// ================================================================ Router entry points (C01 / C17 at the top level)
+// `Router::match_request` hands the request to the scheme layer as it is; `trace_request` first re-normalises it (statement C17: the trace
+// is compared with matching the NORMALISED request). Request::rebuild_with_config is under contract in unit req; here it is a named function.
+pub assume_specification<T: ?Sized, A: std::alloc::Allocator> [<Arc<T, A> as std::convert::AsRef<T>>::as_ref] (a: &Arc<T, A>) -> (r: &T) ensures r == &**a;
+pub uninterp spec fn rebuilt(cfg: RouterConfig, r: Request) -> Request;
+pub uninterp spec fn rprio<T>(r: Route<T>) -> u64;
+impl Request {
+    #[verifier::external_body] pub fn rebuild_with_config(config: &RouterConfig, request: &Request) -> (r: Request) ensures r == rebuilt(*config, *request) { unimplemented!() }
+}
+impl<T> Route<T> {
+    #[verifier::external_body] pub fn priority(&self) -> (r: u64) ensures r == rprio(*self) { unimplemented!() }
+}
+//@@ item src/router/mod.rs :: struct Router
+//@@ item src/router/trace.rs :: struct RouteTrace
+// R8 outlines (ASSUMED contracts): a stable sort by descending priority is a permutation sorted by descending priority; first().cloned()
+#[verifier::external_body]
+pub fn outl_sort_prio_desc<T>(v: &mut Vec<RouteRef<T>>)
+    ensures ms_of(final(v)@) == ms_of(old(v)@), final(v)@.len() == old(v)@.len(),
+        forall|i: int, j: int| 0 <= i <= j < final(v)@.len() ==> rprio(*#[trigger] final(v)@[i]) >= rprio(*#[trigger] final(v)@[j]),
+{ /* verbatim: routes.sort_by_key(|b| Reverse(b.priority())); | routes_traces.sort_by_key(|b| Reverse(b.priority())); */ unimplemented!() }
+#[verifier::external_body]
+pub fn outl_first_cloned<T>(v: &Vec<RouteRef<T>>) -> (r: Option<RouteRef<T>>)
+    ensures r == (if v@.len() > 0 { Some(v@[0]) } else { None::<RouteRef<T>> }),
+{ /* verbatim: routes.first().cloned() | routes_traces.first().cloned() */ unimplemented!() }
+// x is a member of the answer with maximal priority
+pub open spec fn max_prio_of<T>(x: RouteRef<T>, a: Multiset<RouteRef<T>>) -> bool {
+    a.count(x) > 0 && forall|y: RouteRef<T>| #[trigger] a.count(y) > 0 ==> rprio(*y) <= rprio(*x)
+}
+pub open spec fn same_members<T>(a: Multiset<RouteRef<T>>, b: Multiset<RouteRef<T>>) -> bool { forall|x: RouteRef<T>| #[trigger] a.count(x) > 0 <==> #[trigger] b.count(x) > 0 }
+pub open spec fn picked<T>(r: Option<RouteRef<T>>, a: Multiset<RouteRef<T>>) -> bool {
+    match r { None => forall|x: RouteRef<T>| #[trigger] a.count(x) == 0, Some(x) => max_prio_of(x, a) }
+}
+pub proof fn lemma_pick_sorted<T>(v: Seq<RouteRef<T>>, a: Multiset<RouteRef<T>>)
+    requires same_members(ms_of(v), a), forall|i: int, j: int| 0 <= i <= j < v.len() ==> rprio(*#[trigger] v[i]) >= rprio(*#[trigger] v[j]),
+    ensures picked(if v.len() > 0 { Some(v[0]) } else { None::<RouteRef<T>> }, a),
+{
+    broadcast use vstd::seq_lib::group_to_multiset_ensures;
+    if v.len() > 0 {
+        assert(v.contains(v[0])); assert(ms_of(v).count(v[0]) > 0); assert(a.count(v[0]) > 0);
+        assert forall|y: RouteRef<T>| #[trigger] a.count(y) > 0 implies rprio(*y) <= rprio(*v[0]) by {
+            assert(ms_of(v).count(y) > 0); assert(v.contains(y)); let j = choose|j: int| 0 <= j < v.len() && v[j] == y; assert(rprio(*v[0]) >= rprio(*v[j]));
+        }
+    } else {
+        assert forall|x: RouteRef<T>| #[trigger] a.count(x) == 0 by { if a.count(x) > 0 { assert(ms_of(v).count(x) > 0); assert(v.contains(x)); } }
+    }
+}
+impl<T> RouteTrace<T> {
+    //@@ fn src/router/trace.rs :: impl <T>RouteTrace<T> / fn new -> r
+    //@| ensures r.traces == traces, r.routes == routes, r.final_route == final_route,
+}
+impl<T> Router<T> {
+    //@@ fn src/router/mod.rs :: impl <T>Router<T> / fn rebuild_request -> r
+    //@| ensures r == rebuilt(*self.config, *request),
+
+    // C01 at the top: the router's answer IS the scheme layer's answer for the request as given
+    //@@ fn src/router/mod.rs :: impl <T>Router<T> / fn match_request -> r
+    //@| ensures ms_of(r@) == scheme_answer(self.matcher, *request),
+
+    // C17 at the top: the trace is the scheme layer's trace of the NORMALISED request
+    //@@ fn src/router/mod.rs :: impl <T>Router<T> / fn trace_request -> r
+    //@| requires forall|k: String| self.matcher.schemes@.contains_key(k) ==> k@.len() > 0,
+    //@| ensures same_members(forest_routes(r@, r@.len() as int), scheme_answer(self.matcher, rebuilt(*self.config, *request))),
+
+    // direct lookup: a matching rule of maximal priority, None exactly when nothing matches
+    //@@ fn src/router/mod.rs :: impl <T>Router<T> / fn get_route -> r
+    //@| ensures picked(r, scheme_answer(self.matcher, *request)),
+    //@| outline `routes.sort_by_key(|b| Reverse(b.priority()));` => `outl_sort_prio_desc(&mut routes);`
+    //@| outline `routes.first().cloned()` => `outl_first_cloned(&routes)`
+    //@| entry broadcast use vstd::seq_lib::group_to_multiset_ensures;
+    //@| before `return None;`: proof { let a = scheme_answer(self.matcher, *request); assert forall|x: RouteRef<T>| #[trigger] a.count(x) == 0 by { if a.count(x) > 0 { assert(routes@.contains(x)); } } }
+    //@| exit proof { lemma_pick_sorted(routes@, scheme_answer(self.matcher, *request)); }
+
+    // explain: the routes listed are those of the trace, the final route is one of them with maximal priority
+    //@@ fn src/router/mod.rs :: impl <T>Router<T> / fn get_trace -> r
+    //@| requires forall|k: String| self.matcher.schemes@.contains_key(k) ==> k@.len() > 0,
+    //@| ensures same_members(forest_routes(r.traces@, r.traces@.len() as int), scheme_answer(self.matcher, rebuilt(*self.config, *request))),
+    //@|     ms_of(r.routes@) == forest_routes(r.traces@, r.traces@.len() as int),
+    //@|     picked(r.final_route, forest_routes(r.traces@, r.traces@.len() as int)),
+    //@| outline `routes_traces.sort_by_key(|b| Reverse(b.priority()));` => `outl_sort_prio_desc(&mut routes_traces);`
+    //@| outline `routes_traces.first().cloned()` => `outl_first_cloned(&routes_traces)`
+    //@| entry broadcast use vstd::seq_lib::group_to_multiset_ensures; broadcast use axiom_arc_cloned;
+    //@| forlabel 0: it
+    //@| loopbefore 0: let ghost rt0 = routes_traces@;
+    //@| loop 0: invariant iter_ref_ok(it.history@, it.index@, it.snapshot@.remaining(), rt0), routes_traces@ == rt0, routes@ == rt0.take(it.index@ as int),
+    //@| loophead 0: let ghost k = it.index@ as int; proof { assert(*route == rt0[k]); }
+    //@| looptail 0: proof { assert(routes@ =~= rt0.take(k + 1)); }
+    //@| loopend 0: proof { assert(rt0.take(rt0.len() as int) =~= rt0); }
+    //@| exit proof { lemma_pick_sorted(routes_traces@, forest_routes(traces@, traces@.len() as int)); }
+}
+// C17, second clause: the traced final rule has the same (maximal) priority as the rule selected by direct lookup on the normalised request
+pub proof fn c17_final_priority<T>(a: Multiset<RouteRef<T>>, b: Multiset<RouteRef<T>>, traced: Option<RouteRef<T>>, direct: Option<RouteRef<T>>)
+    requires same_members(a, b), picked(traced, a), picked(direct, b),
+    ensures (traced is None) == (direct is None), traced matches Some(x) ==> (direct matches Some(y) && rprio(*x) == rprio(*y)),
+{
+    match (traced, direct) {
+        (Some(x), Some(y)) => { assert(b.count(x) > 0); assert(a.count(y) > 0); }
+        (Some(x), None) => { assert(b.count(x) > 0); }
+        (None, Some(y)) => { assert(a.count(y) > 0); }
+        (None, None) => {}
+    }
+}
+
 //@@ strlits
 } // verus!
 fn main() {}
